@@ -706,6 +706,52 @@ impl Tamper {
         }
     }
 
+    /// A signed GroupInfo (with the tree extension) of epoch N delivered to a member that has moved
+    /// to N+1 through a commit that left the tree untouched (no path): only the group context and
+    /// the confirmation tag tell the two epochs apart.
+    fn stale_group_info(&mut self, w: &mut World) {
+        let act = w.active();
+        if w.cfg.path_required || act.len() < 2 {
+            return;
+        }
+        let (c, r) = (act[0], act[1]);
+        let Ok(Ok(gi)) = guarded(|| w.g(c).group_info_message_allowing_ext_commit(true)) else { return };
+        let Ok(gib) = gi.to_bytes() else { return };
+        let mut cg = w.g(c).clone();
+        cg.clear_pending_commit();
+        cg.clear_proposal_cache();
+        let cp = w.custom_proposal(false);
+        let Ok(Ok(out)) = guarded(|| cg.commit_builder().custom_proposal(cp).build()) else { return };
+        if out.contains_update_path {
+            return;
+        }
+        let mut rg = w.g(r).clone();
+        rg.clear_proposal_cache();
+        let cm = out.commit_message.clone();
+        if !matches!(guarded(|| rg.process_incoming_message(cm)), Ok(Ok(_))) {
+            return;
+        }
+        // sanity: the genuine GroupInfo of the old epoch was acceptable in the old epoch
+        let mut before = w.g(r).clone();
+        let g0 = gi.clone();
+        if !matches!(guarded(|| before.process_incoming_message(g0)), Ok(Ok(_))) {
+            return;
+        }
+        self.note(w, "group_info", "of_previous_epoch_tree_unchanged", "tried");
+        match try_deliver(&mut rg, &gib) {
+            Outcome::Accepted => {
+                if !self.c04 {
+                    w.violate(
+                        "C03|accepted|group_info|of_previous_epoch_tree_unchanged",
+                        format!("member {r} at epoch {} accepted the GroupInfo of member {c} for the previous epoch (the commit in between had no path, the tree is the same)", rg.current_epoch()),
+                    );
+                }
+            }
+            Outcome::Panic(p) => w.violate(format!("{}|panic|group_info|stale|{}", self.prop, loc(&p)), p),
+            _ => w.out.cov.bump("stale_group_info_refused"),
+        }
+    }
+
     /// Genuine messages of a sibling group delivered into this group (see `sibling_messages`).
     fn cross_group(&mut self, w: &mut World) {
         let act = w.active();
@@ -1239,6 +1285,7 @@ impl Hooks for Tamper {
         if self.rng.chance(1, 2) {
             self.cross_group(w);
         }
+        self.stale_group_info(w);
     }
 
     fn before_receive(&mut self, w: &mut World, to: usize, msg: &MlsMessage) {
